@@ -51,10 +51,17 @@ Definition le_any (p : spos) (o : pv) : bool :=
   | UQry q _ => lpos q <=? lpos (pq o)
   end.
 
-(* __trimNotAlignedPositionsFromEnd on a reversed list; IndexError when it pops to empty *)
+(* __trimNotAlignedPositionsFromEnd on a reversed list *)
+(* fixed = true is the code as it is now (after repair F8: `while positions and ...` stops on the empty list);
+   fixed = false is the code before the repair (positions[-1] on the empty list raised IndexError) — kept for the regression witnesses *)
+Fixpoint trim_rev_gen (fixed : bool) (rl : list spos) (e : pv) : res (list spos) :=
+  match rl with
+  | [] => if fixed then Ok [] else Err
+  | p :: t => if negb (is_pair p) && negb (le_any p e) then trim_rev_gen fixed t e else Ok rl
+  end.
 Fixpoint trim_rev (rl : list spos) (e : pv) : res (list spos) :=
   match rl with
-  | [] => Err
+  | [] => Ok []
   | p :: t => if negb (is_pair p) && negb (le_any p e) then trim_rev t e else Ok rl
   end.
 Definition slice (s : segment) (st en : pv) : res segment :=
